@@ -24,7 +24,6 @@ type C08Case struct {
 // c08Names: destination names with a blank, '#', a backslash, non-ASCII bytes, a glob character and a leading dot.
 var c08Names = []string{"my app.conf", "a#b.conf", "back\\slash.conf", "caf\u00e9.conf", "st[a]r*.conf", ".hidden", "tab\tx.conf", "percent%41.conf", "semi;colon", "quote'\"q"}
 
-
 var c08Types = []string{"", "file", "config", "config|noreplace", "config|missingok", "dir", "symlink", "tree", "ghost", "doc", "licence", "license", "readme"}
 
 func c08Entry(typ, tag string, n int, info bool) model.Entry {
